@@ -46,6 +46,7 @@ def main(tier, replay=None):
         for _ in range(5 if quick else 20):
             runs.append(["reset", "run %d %d %d" % (k, rng.randint(1, 10**6), rng.choice([2, 4]) if quick else rng.choice([3, 8, 20]))])
     camp.run([], runs, "threads")
+    camp.run([], [["reset", "stopthread"]], "stop-a-thread", sample=False)
     chk.cov["rule"] = ("an execution = k Cello threads running seeded workloads concurrently (after each workload ran alone); TLC checks "
                        "digest equality with the solo run, no foreign finalisation, consecutive in-section tickets, the exact "
                        "unprotected counter, ticket(function end) < ticket(join return) and the value seen after join; distinct = (k, seed, rounds)")
